@@ -51,6 +51,8 @@ def eval_guard(expr, env, classify):
         l = eval_guard(expr.left, env, classify)
         r = eval_guard(expr.right, env, classify)
         return l * r if isinstance(expr.op, ast.Mult) else l // r
+    if isinstance(expr, ast.Call) and isinstance(expr.func, ast.Name) and expr.func.id == "bool" and len(expr.args) == 1 and not expr.keywords:
+        return bool(eval_guard(expr.args[0], env, classify))
     if isinstance(expr, ast.Call) and isinstance(expr.func, ast.Name) and expr.func.id in ("max", "min") and expr.args and not expr.keywords:
         vs = [eval_guard(x, env, classify) for x in expr.args]
         return max(vs) if expr.func.id == "max" else min(vs)
